@@ -86,4 +86,15 @@ META = {
                 "between two simulator events are atomic steps",
         "technique": "deterministic simulation: real replicas over simulated network/DAG/disk/clock, seeded delivery and fault schedules, convergence + fold-model oracles",
     },
+    "C07": {
+        "text": "Seeded operation sequences on the real account metadata store (real orbit-db/ipfs-log underneath) against the "
+                "appendix-A reference table: for every operation the reference predicts refusal (error and nothing appended) or the "
+                "event type that must be appended; after every operation, after reopening the group, and on a second device that "
+                "replays the log through SimNet (online with reordered deliveries, or afterwards in one batch), state / rendezvous "
+                "seed / metadata / own metadata of every contact, the one-state partition and the contact-group lookup are compared "
+                "with the reference fold.",
+        "design_ref": "section 5, C07; appendix A",
+        "note": "sequences of length <= 6 are sampled densely (not enumerated exhaustively), longer ones randomly; nil keys excluded",
+        "technique": "deterministic simulation: seeded operation sequences + reopen + simulated replication vs reference lifecycle model",
+    },
 }
